@@ -556,6 +556,46 @@ fn commitment_signed_probe(a: &mut Vec<i128>) -> String {
 	}
 }
 
+/// preimage_after_conf_reorg_probe
+/// Node 0's current commitment, holding a 3 000 sat HTLC offered to node 1, confirms on node 1's chain at height H;
+/// only THEN does node 1 learn the preimage (claim_funds, the fulfil never reaches node 0), so its monitor builds the
+/// HTLC claim from the funding-spend entry still awaiting its confirmation threshold. Then block H is disconnected.
+/// Output: 1 if a claim for the HTLC output was tracked before the reorg, and 1 if one is still tracked after it
+/// (a claim on an output of a transaction that is no longer in the chain must be dropped: expected `1 0`).
+fn preimage_after_conf_reorg_probe(_a: &mut Vec<i128>) -> String {
+	let chanmon_cfgs = create_chanmon_cfgs(2);
+	let node_cfgs = create_node_cfgs(2, &chanmon_cfgs);
+	let node_chanmgrs = create_node_chanmgrs(2, &node_cfgs, &[None, None]);
+	let nodes = create_network(2, &node_cfgs, &node_chanmgrs);
+	*nodes[0].connect_style.borrow_mut() = ConnectStyle::FullBlockViaListen;
+	*nodes[1].connect_style.borrow_mut() = ConnectStyle::FullBlockViaListen;
+	let chan = create_announced_chan_between_nodes(&nodes, 0, 1);
+	let chan_id = chan.2;
+	send_payment(&nodes[0], &[&nodes[1]], 10_000_000);
+	let (preimage, _, _, _) = route_payment(&nodes[0], &[&nodes[1]], 3_000_000);
+	let commitment = {
+		let mon = nodes[0].chain_monitor.chain_monitor.get_monitor(chan_id).unwrap();
+		mon.unsafe_get_latest_holder_commitment_txn(&nodes[0].logger)[0].clone()
+	};
+	let vout = commitment.output.iter().position(|o| o.value.to_sat() == 3_000).expect("HTLC output") as u32;
+	let txid = commitment.compute_txid();
+	mine_transaction(&nodes[1], &commitment);
+	let _ = nodes[1].node.get_and_clear_pending_msg_events();
+	let _ = nodes[1].node.get_and_clear_pending_events();
+	nodes[1].node.claim_funds(preimage);
+	let _ = nodes[1].node.get_and_clear_pending_msg_events();
+	let _ = nodes[1].node.get_and_clear_pending_events();
+	let tracked = |nodes: &Vec<Node>| {
+		let mon = nodes[1].chain_monitor.chain_monitor.get_monitor(chan_id).unwrap();
+		lightning::chain::channelmonitor::verif_hooks::tracked_claims(&mon).iter().any(|(t, o, _, _)| *t == txid && *o == vout)
+	};
+	let before = tracked(&nodes);
+	disconnect_blocks(&nodes[1], 1);
+	let after = tracked(&nodes);
+	core::mem::forget(nodes);
+	format!("{} {}", before as u8, after as u8)
+}
+
 fn main() {
 	if std::env::var("ORACLE_DEBUG").is_err() { std::panic::set_hook(Box::new(|_| {})); }
 	let stdin = std::io::stdin();
@@ -582,6 +622,7 @@ fn main() {
 			"mpp_partial_claim_probe" => mpp_partial_claim_probe(&mut args),
 			"raa_probe" => raa_probe(&mut args),
 			"commitment_signed_probe" => commitment_signed_probe(&mut args),
+			"preimage_after_conf_reorg_probe" => preimage_after_conf_reorg_probe(&mut args),
 			_ => format!("error unknown function {}", name),
 		}));
 		match r {
